@@ -2,6 +2,7 @@ use crate::run::Ctx;
 use serde_json::Value;
 
 pub mod c01;
+pub mod c02;
 pub mod c04;
 pub mod c05;
 pub mod c06;
@@ -19,6 +20,7 @@ pub struct Entry {
 pub fn lookup(id: &str) -> Option<Entry> {
     Some(match id {
         "C01" => Entry { id: "C01", check: c01::check, replay: c01::replay },
+        "C02" => Entry { id: "C02", check: c02::check, replay: c02::replay },
         "C04" => Entry { id: "C04", check: c04::check, replay: c04::replay },
         "C05" => Entry { id: "C05", check: c05::check, replay: c05::replay },
         "C06" => Entry { id: "C06", check: c06::check, replay: c06::replay },
